@@ -25,14 +25,19 @@ Definition env_from_obs (ntsok : bool) (payload r : list Z) (rev : option (Z * l
          e_rx := zt64; e_tx := zt64; e_store_hit := None; e_spao_fail := false; e_path_rev := rev |}
   end.
 
-(* replies as observed: [[receiver bytes] ...] *)
+(* replies as observed: [[receiver from bytes] ...]; from = 1: the datagram came from the
+   address and port the request was sent to *)
 Fixpoint ip_replies_of (l : list value) : option (list (Z * list Z)) :=
   match l with
   | [] => Some []
-  | VL [VZ rcv; VB r] :: t =>
+  | VL [VZ rcv; VZ _; VB r] :: t =>
       match ip_replies_of t with Some rs => Some ((rcv, r) :: rs) | None => None end
   | _ => None
   end.
+
+(* "reply source = request destination", for IP and SCION observations alike (second field) *)
+Definition from_ok (l : list value) : bool :=
+  forallb (fun v => match v with VL (_ :: VZ f :: _) => negb (f =? 0) | _ => false end) l.
 
 Definition ip_agree (sender : Z) (payload : list Z) (ntsok : bool) (replies : list (Z * list Z)) : bool :=
   match replies with
@@ -72,10 +77,11 @@ Definition ip_step_verdict (v : value) : option (bool * bool) :=
   match v with
   | VL [VZ sender; VB payload; VZ nts; VL reps; VB sentinel; VL sreps] =>
       match ip_replies_of reps, ip_replies_of sreps with
-      | Some reps, Some sreps =>
-          Some (ip_agree sender payload (nts_computed nts) reps && ip_agree sender sentinel false sreps,
-                nts_consistent nts &&
-                C09_hist_ok [mk_obs sender payload (nts_for_oracle nts) reps; mk_obs sender sentinel false sreps])
+      | Some reps', Some sreps' =>
+          Some (ip_agree sender payload (nts_computed nts) reps' && ip_agree sender sentinel false sreps',
+                nts_consistent nts && from_ok reps && from_ok sreps &&
+                C09_hist_ok [mk_obs sender payload (nts_for_oracle nts) reps'; mk_obs sender sentinel false sreps'] &&
+                C09_pairs_ok payload reps' && C09_pairs_ok sentinel sreps')
       | _, _ => None
       end
   | _ => None
@@ -110,12 +116,16 @@ Definition ip_burst_verdict (v : value) : option (bool * bool) :=
   match v with
   | VL [VZ sender; VL ps; VL reps; VB sentinel; VL sreps] =>
       match burst_of ps, ip_replies_of reps, ip_replies_of sreps with
-      | Some ps, Some reps, Some sreps =>
+      | Some ps, Some reps', Some sreps' =>
+          let fromok := from_ok reps && from_ok sreps in
+          let reps := reps' in let sreps := sreps' in
           Some (burst_agree sender (map (fun pn => (fst pn, nts_computed (snd pn))) ps) reps &&
                 ip_agree sender sentinel false sreps,
                 forallb (fun pn => nts_consistent (snd pn)) ps &&
+                fromok &&
                 C09_burst_ok sender (map (fun pn => (fst pn, nts_for_oracle (snd pn))) ps) reps &&
-                C09_hist_ok [mk_obs sender sentinel false sreps])
+                C09_burst_pairs_ok (map (fun pn => (fst pn, nts_for_oracle (snd pn))) ps) reps &&
+                C09_hist_ok [mk_obs sender sentinel false sreps] && C09_pairs_ok sentinel sreps)
       | _, _, _ => None
       end
   | _ => None
@@ -154,13 +164,15 @@ Definition rev_of (v : value) : option (option (Z * list Z)) :=
   | _ => None
   end.
 
-(* a datagram seen: [receiver class hdr payload]; class 1 = SCION [HBH] [E2E] UDP, fully parsed
+(* a datagram seen: [receiver from class ext hdr payload]; from as above; ext 0 = no extension
+   header, 1 = E2E with exactly a server's packet authenticator whose MAC verifies, 2 = other;
+   class 1 = SCION [HBH] [E2E] UDP, fully parsed
    (next-header chain, UDP length and checksum valid); 0 = not parseable; 2 = SCION/SCMP;
    3 = SCION/UDP with a wrong length or checksum *)
 Fixpoint scion_seen_of (l : list value) : option (list (Z * Z * scion_hdr * list Z)) :=
   match l with
   | [] => Some []
-  | VL [VZ rcv; VZ cls; h; VB r] :: t =>
+  | VL [VZ rcv; VZ _; VZ cls; VZ _; h; VB r] :: t =>
       match hdr_of h, scion_seen_of t with
       | Some rh, Some rs => Some ((rcv, cls, rh, r) :: rs)
       | _, _ => None
@@ -173,6 +185,16 @@ Definition strip_cls (l : list (Z * Z * scion_hdr * list Z)) : list (Z * scion_h
 (* everything that came back is a well-formed SCION/UDP datagram *)
 Definition all_udp (l : list (Z * Z * scion_hdr * list Z)) : bool :=
   forallb (fun x => match x with (_, cls, _, _) => cls =? 1 end) l.
+(* replies to a packet addressed to the listener: each belongs to its request (origin
+   timestamp, plain/NTS form) and carries an authenticator exactly when the request carried a
+   valid one *)
+Definition scion_details_ok (cp lp : Z) (h : scion_hdr) (payload : list Z) (spao : Z) (l : list value) : bool :=
+  if scion_addressed cp lp h then
+    forallb (fun v => match v with
+                      | VL [_; _; _; VZ ext; _; VB r] => reply_pairs_ok payload r && (ext =? (if spao =? 1 then 1 else 0))
+                      | _ => false end) l
+  else true.
+
 (* nothing that came back carries a UDP payload: no NTP reply *)
 Definition none_udp (l : list (Z * Z * scion_hdr * list Z)) : bool :=
   forallb (fun x => match x with (_, cls, _, _) => negb (cls =? 1) && negb (cls =? 3) end) l.
@@ -184,13 +206,17 @@ Definition hdr_eqb (a b : scion_hdr) : bool :=
   (h_path_type a =? h_path_type b) && list_eqb (h_path_raw a) (h_path_raw b) &&
   (h_udp_src a =? h_udp_src b) && (h_udp_dst a =? h_udp_dst b).
 
-Definition scion_agree (cp lp sender : Z) (h : scion_hdr) (payload : list Z) (ntsok : bool)
+Definition with_spao (bad : bool) (e : env) : env :=
+  {| e_nts_ok := e_nts_ok e; e_nts_ext := e_nts_ext e; e_nts_cookie_added := e_nts_cookie_added e;
+     e_rx := e_rx e; e_tx := e_tx e; e_store_hit := e_store_hit e; e_spao_fail := bad; e_path_rev := e_path_rev e |}.
+
+Definition scion_agree (cp lp sender : Z) (h : scion_hdr) (payload : list Z) (ntsok bad : bool)
   (rev : option (Z * list Z)) (replies : list (Z * scion_hdr * list Z)) : bool :=
   match replies with
-  | [] => match scion_decision_of cp lp h payload (env_from_obs ntsok payload [] rev) with
+  | [] => match scion_decision_of cp lp h payload (with_spao bad (env_from_obs ntsok payload [] rev)) with
           | SNoReply => true | _ => false end
   | [(rcv, rh, r)] =>
-      match scion_decision_of cp lp h payload (env_from_obs ntsok payload r rev) with
+      match scion_decision_of cp lp h payload (with_spao bad (env_from_obs ntsok payload r rev)) with
       | SReply mh out => (rcv =? sender) && hdr_eqb mh rh && list_eqb out r
       | SForward => list_eqb r payload     (* relayed: the packet's own payload, on its way to another port *)
       | _ => false
@@ -205,17 +231,20 @@ Definition scion_oracle (cp lp sender : Z) (h : scion_hdr) (payload : list Z) (n
   (rev : option (Z * list Z)) (replies : list (Z * scion_hdr * list Z)) : bool :=
   C09_scion_any_ok sender cp lp h payload ntsok rev replies.
 
-(* [conn_port local_port sender hdr payload nts rev [seen] sentinel_hdr sentinel sentinel_rev [seen after the sentinel]] *)
+(* [conn_port local_port sender hdr payload nts spao rev [seen] sentinel_hdr sentinel sentinel_rev [seen after the sentinel]]
+   spao (by construction): 0 no client authenticator, 1 a valid one, 2 one whose MAC does not verify *)
 Definition scion_step_verdict (v : value) : option (bool * bool) :=
   match v with
-  | VL [VZ cp; VZ lp; VZ sender; h; VB payload; VZ nts; rev; VL reps; sh; VB sentinel; srev; VL sreps] =>
+  | VL [VZ cp; VZ lp; VZ sender; h; VB payload; VZ nts; VZ spao; rev; VL reps; sh; VB sentinel; srev; VL sreps] =>
       match hdr_of h, rev_of rev, scion_seen_of reps, hdr_of sh, rev_of srev, scion_seen_of sreps with
-      | Some h, Some rev, Some reps, Some sh, Some srev, Some sreps =>
-          Some (scion_agree cp lp sender h payload (nts_computed nts) rev (strip_cls reps) &&
-                scion_agree cp lp sender sh sentinel false srev (strip_cls sreps),
-                all_udp reps && all_udp sreps && nts_consistent nts &&
-                scion_oracle cp lp sender h payload (nts_for_oracle nts) rev (strip_cls reps) &&
-                scion_oracle cp lp sender sh sentinel false srev (strip_cls sreps))
+      | Some h, Some rev, Some reps', Some sh, Some srev, Some sreps' =>
+          Some (scion_agree cp lp sender h payload (nts_computed nts) (spao =? 2) rev (strip_cls reps') &&
+                scion_agree cp lp sender sh sentinel false false srev (strip_cls sreps'),
+                all_udp reps' && all_udp sreps' && from_ok reps && from_ok sreps && nts_consistent nts &&
+                C09_scion_auth_ok (spao =? 2) sender cp lp h payload (nts_for_oracle nts) rev (strip_cls reps') &&
+                scion_details_ok cp lp h payload spao reps &&
+                scion_oracle cp lp sender sh sentinel false srev (strip_cls sreps') &&
+                scion_details_ok cp lp sh sentinel 0 sreps)
       | _, _, _, _, _, _ => None
       end
   (* a datagram that is no SCION/UDP packet (garbage, SCMP), then the sentinel from the same socket:
@@ -224,15 +253,16 @@ Definition scion_step_verdict (v : value) : option (bool * bool) :=
      Property: no NTP reply (nothing with a UDP payload comes back), and the listener goes on serving:
      the sentinel is answered.  Correspondence: nothing comes back, except one SCMP message to the
      sender for an SCMP request. *)
-  | VL [VB raw; VZ what; VZ cp; VZ lp; VZ sender; VL reps; sh; VB sentinel; srev; VL sreps] =>
-      match scion_seen_of reps, hdr_of sh, rev_of srev, scion_seen_of sreps with
+  | VL [VB raw; VZ what; VZ cp; VZ lp; VZ sender; VL rawreps; sh; VB sentinel; srev; VL rawsreps] =>
+      match scion_seen_of rawreps, hdr_of sh, rev_of srev, scion_seen_of rawsreps with
       | Some reps, Some sh, Some srev, Some sreps =>
           Some ((if what =? 1
                  then match reps with [(rcv, cls, _, _)] => (rcv =? sender) && (cls =? 2) | _ => false end
                  else match reps with [] => true | _ => false end) &&
-                scion_agree cp lp sender sh sentinel false srev (strip_cls sreps),
-                none_udp reps && all_udp sreps &&
-                scion_oracle cp lp sender sh sentinel false srev (strip_cls sreps))
+                scion_agree cp lp sender sh sentinel false false srev (strip_cls sreps),
+                none_udp reps && all_udp sreps && from_ok rawreps && from_ok rawsreps &&
+                scion_oracle cp lp sender sh sentinel false srev (strip_cls sreps) &&
+                scion_details_ok cp lp sh sentinel 0 rawsreps)
       | _, _, _, _ => None
       end
   | _ => None
@@ -241,7 +271,27 @@ Definition scion_step_verdict (v : value) : option (bool * bool) :=
 Definition vt64 (t : time64) : list value := [VZ (t64_sec t); VZ (t64_frac t)].
 
 Definition glue_C09 (k : string) (a o : list value) : option verdict :=
-  if is k "ip" then
+  if is k "mixed" then
+    (* one datagram from each of many sockets at the same time, to the IP listener and to the
+       SCION listener: outs = [crashed [steps]], each step in the IP or in the SCION shape *)
+    match o with
+    | [VZ crashed; VL steps] =>
+        match steps_verdict (fun v => match ip_any_step_verdict v with Some x => Some x | None => scion_step_verdict v end) steps with
+        | Some (ag, orc) => Some (relational ((crashed =? 0) && ag) ((crashed =? 0) && orc))
+        | None => None
+        end
+    | _ => None end
+  else if is k "srv.race" then
+    (* outs: number of reports of the Go race detector while all listener goroutines were busy *)
+    match o with
+    | [VZ n] => Some (functional [VZ 0] o (n =? 0))
+    | _ => None end
+  else if is k "harness.skipped" then
+    (* args: how many steps may fail to build; outs: how many did *)
+    match a, o with
+    | [VZ lim], [VZ n] => Some (relational (n <=? lim) true)
+    | _, _ => None end
+  else if is k "ip" then
     (* args: the scripted history (symbolic); outs: [crashed [steps as observed]] *)
     match o with
     | [VZ crashed; VL steps] =>
